@@ -127,7 +127,7 @@ def queue_of_the_right_transport(m_acl: int, m_le: int, n: int) -> bool:
 
 @harness(pre=['0 <= n0 <= 5 and 0 <= len0 <= 6 and 0 <= n1 <= 5 and 0 <= count <= 2'], family='faults', twin=True, kernels=K, timeout=(90, 300),
          grid={'pb0': [0, 1, 2, 3], 'pb1': [0, 1, 2, 3]},
-         bounds='between two well-formed PDUs, 0..2 malformed fragments with symbolic PB flags 0..3, sizes 0..5 and announced length 0..6 (continuation without start, data beyond the announced length, abandoned start, ...): the PDU after the garbage is delivered intact exactly once and the first PDU is not delivered twice')
+         bounds='between two well-formed PDUs, 0..2 malformed fragments with symbolic PB flags 0..3, sizes 0..5 and announced length 0..6 (continuation without start, data beyond the announced length, abandoned start, ...): the PDU after the garbage is delivered intact exactly once, the first PDU is not delivered twice, and nothing is delivered that no start fragment began (no phantom PDU from stray continuations)')
 def malformed_fragments_cost_one_pdu(n0: int, len0: int, n1: int, count: int, pb0: int, pb1: int) -> bool:
     n0, len0, n1, count = C(n0, 0, 5), C(len0, 0, 6), C(n1, 0, 5), C(count, 0, 2)
     with untraced():
@@ -149,7 +149,13 @@ def malformed_fragments_cost_one_pdu(n0: int, len0: int, n1: int, count: int, pb
         good2 = bytes([3, 0, 4, 0, 0xB1, 0xB2, 0xB3])
         asm.feed_packet(pkt(0, good2[:4]))
         asm.feed_packet(pkt(1, good2[4:]))
-        return got.count(good1) == 1 and got.count(good2) == 1 and got[0] == good1 and got[-1] == good2
+        if not (got.count(good1) == 1 and got.count(good2) == 1 and got[0] == good1 and got[-1] == good2):
+            return False
+        # anything else that is delivered must come from a garbage fragment that IS a start fragment (it may form a PDU of its own);
+        # continuations and undefined PB flags with nothing pending never produce a PDU (no phantom PDUs)
+        extra = [g for g in got if g not in (good1, good2)]
+        starts = sum(1 for pb in (pb0, pb1)[:count] if pb in (0, 2))
+        return len(extra) <= starts
 
 
 @harness(pre=['0 <= n <= 12 and 0 <= cut <= 12'], family='faults', kernels=K, timeout=(60, 200),
